@@ -123,7 +123,7 @@ def check(pid: str, tier: str, seed: int):
         # what a type exposes is a function of its ancestors' declarations, not of where they stand in the file
         import copy as _copy
         for k, L in enumerate(exhaustive_langs(3 if tier == 'quick' else 4)):
-            if tier == 'quick' and k % 2:
+            if k % 2:
                 continue
             L2 = _copy.deepcopy(L)
             if k % 4 == 0:
